@@ -336,6 +336,31 @@ fn builder_histories(map: &Beatmap) -> Option<String> {
             }
         }
     }
+    // a gradual calculator's value at a position must not depend on how the position was reached (single steps, jumps of two,
+    // one jump to the end), under mods that switch skills off as well
+    {
+        let modes: Vec<u8> = if map.mode == rosu_pp::model::mode::GameMode::Osu { vec![0, 1, 2, 3] } else { vec![gen::mode_num(map.mode)] };
+        for m in modes {
+            for bits in [0u32, settings::AP, settings::RX, settings::HD | settings::HR | settings::DT] {
+                let d = Difficulty::new().mods(bits);
+                let by_next: Vec<_> = api::gradual(d.clone(), map, m).expect("reachable").collect();
+                let mut g = api::gradual(d.clone(), map, m).expect("reachable");
+                let mut by_twos = Vec::new();
+                while let Some(v) = g.nth(1) {
+                    by_twos.push(v);
+                }
+                for (k, v) in by_twos.iter().enumerate() {
+                    if !same(v, &by_next[2 * k + 1]) {
+                        return Some(format!("mode {m}, mods bits {bits}: gradual difficulty value #{} reached by nth(1) jumps differs from the one reached by next() steps\n by jumps: {v:?}\n by steps: {:?}", 2 * k + 2, by_next[2 * k + 1]));
+                    }
+                }
+                let end = api::gradual(d, map, m).expect("reachable").last();
+                if !same(&end, &by_next.last().cloned()) {
+                    return Some(format!("mode {m}, mods bits {bits}: last() of a fresh gradual calculator differs from the last value of next() steps\n last(): {end:?}\n steps : {:?}", by_next.last()));
+                }
+            }
+        }
+    }
     None
 }
 
@@ -569,7 +594,7 @@ fn main() {
     }
 
     let ctx = Ctx::from_env_caps("C01", 55, 1500);
-    ctx.rule("universe 'bpm-hash-order': every timing set of <= 4 uninherited lines over 4 beat lengths (one rounding onto another) x gap patterns x 3 tail lengths; all k! iteration orders of the k distinct beat lengths through the seam, plus two calls under the hash map's own order; bpm() must be bit-identical. universe 'address-phase': difficulty / strains / performance / gradual on 3 long synthetic maps (600 sliders, 900 and 1000 objects) and the 4 fixtures, all reachable modes, 2 settings, under all 8 placement phases {0,8,..,56} modulo 64 of every heap buffer >= 64 bytes (helper binary with a phase-shifting global allocator): digests must equal those of phase 0. universe 'decode-after-broken-text': every text obtained from the 6 pool texts (and the first with three multi-segment sliders appended) by cutting one line of [Difficulty] / [TimingPoints] / [HitObjects] after any one of its delimiters and putting an unparsable token there (dropping the rest of the line, or replacing only that token), with and without the rest of the file; on a thread of its own: decode it, then every well-formed text via bytes and str (must equal the first-decode reference), then the broken text again (must equal its first decode). universe 'histories': every history (repetitions allowed) of depth <= 3 over the op pool (decode, bpm, convert x 3 entry points, difficulty, strains, performance, gradual difficulty / performance walks for 4 settings incl. Random with and without seed, mania under Invert / HoldOff / both on a map with chords, lock-step walks of two calculators, builder reuse); universe 'builder-histories': per map, configure-then-switch vs switch-then-configure (4 configurations x 3 target modes) and generate_state() twice before calculate() vs a builder never asked (3 configurations x every reachable mode) on 6 maps; oracle = each op's result digest equals the digest the same op yields as the only op of a fresh process (two fresh processes per op must agree with each other), maps passed by reference unchanged; non-trivial = more than one distinct beat length / history of length >= 2");
+    ctx.rule("universe 'bpm-hash-order': every timing set of <= 4 uninherited lines over 4 beat lengths (one rounding onto another) x gap patterns x 3 tail lengths; all k! iteration orders of the k distinct beat lengths through the seam, plus two calls under the hash map's own order; bpm() must be bit-identical. universe 'address-phase': difficulty / strains / performance / gradual on 3 long synthetic maps (600 sliders, 900 and 1000 objects) and the 4 fixtures, all reachable modes, 2 settings, under all 8 placement phases {0,8,..,56} modulo 64 of every heap buffer >= 64 bytes (helper binary with a phase-shifting global allocator): digests must equal those of phase 0. universe 'decode-after-broken-text': every text obtained from the 6 pool texts (and the first with three multi-segment sliders appended) by cutting one line of [Difficulty] / [TimingPoints] / [HitObjects] after any one of its delimiters and putting an unparsable token there (dropping the rest of the line, or replacing only that token), with and without the rest of the file; on a thread of its own: decode it, then every well-formed text via bytes and str (must equal the first-decode reference), then the broken text again (must equal its first decode). universe 'histories': every history (repetitions allowed) of depth <= 3 over the op pool (decode, bpm, convert x 3 entry points, difficulty, strains, performance, gradual difficulty / performance walks for 4 settings incl. Random with and without seed, mania under Invert / HoldOff / both on a map with chords, lock-step walks of two calculators, builder reuse); universe 'builder-histories': per map, configure-then-switch vs switch-then-configure (4 configurations x 3 target modes) and generate_state() twice before calculate() vs a builder never asked (3 configurations x every reachable mode), gradual values reached by next() steps vs nth(1) jumps vs last() under no mod / Autopilot / Relax / HDHRDT on 6 maps; oracle = each op's result digest equals the digest the same op yields as the only op of a fresh process (two fresh processes per op must agree with each other), maps passed by reference unchanged; non-trivial = more than one distinct beat length / history of length >= 2");
     ctx.assume("the fresh-process reference table is produced by this same checker binary started once per op and repetition");
 
     timing_universe(&ctx);
